@@ -186,6 +186,12 @@ func (P *Program) funcKey(fn *ssa.Function) string {
 		return ""
 	}
 	rel := relPkg(fn.Pkg.Pkg.Path())
+	name := fn.Name()
+	if o, ok := fn.Object().(*types.Func); ok && len(renamedFuncs) > 0 {
+		if old, ok := renamedFuncs[typesFuncIdent(o)]; ok {
+			name = old // known to the rules under its recorded name
+		}
+	}
 	if recv := fn.Signature.Recv(); recv != nil {
 		t := recv.Type()
 		ptr := false
@@ -198,11 +204,11 @@ func (P *Program) funcKey(fn *ssa.Function) string {
 			return ""
 		}
 		if ptr {
-			return fmt.Sprintf("%s.(*%s).%s", rel, n.Obj().Name(), fn.Name())
+			return fmt.Sprintf("%s.(*%s).%s", rel, n.Obj().Name(), name)
 		}
-		return fmt.Sprintf("%s.(%s).%s", rel, n.Obj().Name(), fn.Name())
+		return fmt.Sprintf("%s.(%s).%s", rel, n.Obj().Name(), name)
 	}
-	return rel + "." + fn.Name()
+	return rel + "." + name
 }
 
 // Key returns the stable key of a module function ("" for foreign functions).
@@ -263,7 +269,27 @@ func (P *Program) Field(rel, typ, field string) *types.Var {
 			return st.Field(i)
 		}
 	}
-	return nil
+	// the field may only have been renamed since the baseline: the single field of this struct that
+	// is not in the recorded list and has the recorded type
+	bf := loadFieldBaseline()
+	want, ok := bf[rel+" "+typ+" "+field]
+	if !ok {
+		return nil
+	}
+	var cand *types.Var
+	for i := 0; i < st.NumFields(); i++ {
+		f := st.Field(i)
+		if _, known := bf[rel+" "+typ+" "+f.Name()]; known {
+			continue
+		}
+		if types.TypeString(f.Type(), nil) == want {
+			if cand != nil {
+				return nil // ambiguous
+			}
+			cand = f
+		}
+	}
+	return cand
 }
 
 // Method finds the *types.Func of a method (pointer or value receiver).
